@@ -82,8 +82,24 @@ pub fn build_image(seed: u64) -> Result<Image, String> {
         write_batch(&db, &b)?;
         apply(&mut base, &b);
     }
+    if seed % 3 == 0 {
+        // a 20 KB key that sorts behind everything: the edit recording the compacted table carries
+        // it as the table's upper bound (a 20 KB manifest record)
+        let b: BatchOps = vec![(vec![0xff; 20_000], Some(b"v1".to_vec()))];
+        write_batch(&db, &b)?;
+        apply(&mut base, &b);
+    }
     db.compact_range(None..None);
     db.verif_wait_idle(std::time::Duration::from_secs(20));
+    if seed % 3 == 0 {
+        // and a second, larger one after another round: the second 20 KB record starts behind the first
+        // and crosses the 32 KiB block boundary, i.e. it is written as a First + Last fragment pair
+        let b: BatchOps = vec![(vec![0xff; 20_001], Some(b"v2".to_vec()))];
+        write_batch(&db, &b)?;
+        apply(&mut base, &b);
+        db.compact_range(None..None);
+        db.verif_wait_idle(std::time::Duration::from_secs(20));
+    }
     let mut wal_batches = vec![];
     let mut expected = base.clone();
     for _ in 0..rng.range(2, 10) {
@@ -95,6 +111,22 @@ pub fn build_image(seed: u64) -> Result<Image, String> {
     }
     db.verif_wait_idle(std::time::Duration::from_secs(20));
     std::panic::catch_unwind(std::panic::AssertUnwindSafe(move || drop(db))).map_err(|_| "panic in close".to_string())?;
+    if std::env::var("VERIF_TRACE").is_ok() {
+        for (p, l) in fs.all_files() {
+            let ps = p.to_string_lossy().to_string();
+            eprintln!("image {seed}: file {ps} {l}");
+            if ps.ends_with(".manifest") {
+                let data = fs.read_file(&p).unwrap_or_default();
+                eprintln!("image {seed}: {ps} {l} bytes, fragment types {:?}", log_type_offsets(&data).iter().map(|o| data[*o]).collect::<Vec<_>>());
+                if let Ok((recs, err)) = raindb::verif::log_read_all(fs.dyn_fs(), &p) {
+                    for r in recs {
+                        eprintln!("  record {} bytes: {:?}", r.len(), raindb::verif::edit_decode(&r).map(|e| (e.wal_file_number, e.new_files.iter().map(|(l, f)| (*l, f.number, f.smallest.0.len(), f.largest.0.len())).collect::<Vec<_>>(), e.deleted_files)));
+                    }
+                    eprintln!("  read error {err:?}");
+                }
+            }
+        }
+    }
     Ok(Image { fs, cfg, base, wal_batches, expected, seed })
 }
 
@@ -190,6 +222,32 @@ fn log_header_field(file: &[u8], off: usize) -> Option<&'static str> {
         pos += 7 + len;
     }
     None
+}
+
+/// offsets of the type bytes of all fragments of a well-formed log file
+fn log_type_offsets(file: &[u8]) -> Vec<usize> {
+    let mut out = vec![];
+    let mut pos = 0usize;
+    while pos + 7 <= file.len() {
+        if 32768 - (pos % 32768) < 7 {
+            pos += 32768 - (pos % 32768);
+            continue;
+        }
+        let len = file[pos + 4] as usize + 256 * file[pos + 5] as usize;
+        out.push(pos + 6);
+        pos += 7 + len;
+    }
+    out
+}
+
+fn type_name(b: u8) -> &'static str {
+    match b {
+        0 => "full",
+        1 => "first",
+        2 => "middle",
+        3 => "last",
+        _ => "invalid",
+    }
 }
 
 fn file_class(p: &str) -> &'static str {
@@ -370,9 +428,19 @@ pub fn check_one(img: &Image, path: &PathBuf, m: &Mutation, rep: &mut Report) ->
                     if let Some(field) = log_header_field(&orig, off) {
                         if field == "length" || field == "type" {
                             rep.count("c15.outcome.log-header-field-damage");
+                            // which type became which: the recorded findings name the transitions the
+                            // unchanged reader lets through; any other one is a new violation
+                            let detail = if field == "type" {
+                                let mut damaged = orig.clone();
+                                m.apply(&mut damaged);
+                                let now = damaged.get(off).copied().unwrap_or(0xff);
+                                format!(":{}-to-{}", type_name(orig[off]), type_name(now))
+                            } else {
+                                String::new()
+                            };
                             rep.fail(
                                 "oracle",
-                                &format!("c15:{cls}-fragment-{field}-field-not-protected"),
+                                &format!("c15:{cls}-fragment-{field}-field-not-protected{detail}"),
                                 &format!("{} of {ps} hits the {field} field of a fragment header, which no checksum covers: the reader runs into the end of the file (taken for a torn tail) or mis-frames the rest, and the records behind it are dropped without an error: {}", m.tok(), first_diff(&got, &img.expected)),
                                 &line,
                             );
@@ -450,6 +518,24 @@ pub fn run(tier: &str, seed: u64, replay: Option<&str>, shard: Option<ShardArgs>
             // always the last 60 bytes (footer / tail records) and the first 16
             for o in (len.saturating_sub(60)..len).chain(0..len.min(16)) {
                 muts.push(Mutation::Flip(o, prng.below(8) as u8));
+            }
+            if cls == "manifest" || cls == "wal" {
+                // every fragment's type byte set to every other type (the first and the last eight
+                // fragments of long logs), and its length bytes flipped
+                if let Some(data) = img.fs.read_file(&path) {
+                    let offs = log_type_offsets(&data);
+                    let n = offs.len();
+                    for (i, o) in offs.iter().enumerate() {
+                        if i >= 8 && i + 8 < n {
+                            continue;
+                        }
+                        for v in 0..=5u8 {
+                            muts.push(Mutation::Set(*o, v));
+                        }
+                        muts.push(Mutation::Flip(*o - 1, prng.below(8) as u8));
+                        muts.push(Mutation::Flip(*o - 2, prng.below(8) as u8));
+                    }
+                }
             }
             if cls == "table" {
                 for _ in 0..(if thorough { 40 } else { 8 }) {
